@@ -157,6 +157,7 @@ def main():
     os.rmdir(other)
     if m:
         ck.cov["oracle_queries"] = m.queries
+        ck.cov["model_runs_skipped"] = m.skipped
         m.close()
     impl.cleanup()
     ck.cov["traces_validated_against_impl"] = ntext + hist["model_runs"]
